@@ -55,6 +55,14 @@ def run_check(prop: str, tier: str) -> int:
             out.oblige("assumptions:only stdlib axioms named in trusted base", "hygiene", not extra,
                        "unexpected axioms: " + ", ".join(extra))
             out.notes.append(f"Print Assumptions: {info['assumptions']['closed']} theorem(s) closed under the global context; axioms seen: {out.axioms or 'none'}")
+        # 3b. thorough: independent re-check of the compiled closure with coqchk
+        if ok and tier == "thorough":
+            okc, logc, ax = core.coqchk(prop)
+            out.oblige(f"coqchk:OG.Props.{prop} (independent checker, -o)", "coq-recheck", okc, logc)
+            out.notes.append(f"coqchk -o axioms: {ax or 'none'}")
+            extra = [a for a in ax if a not in set(getattr(mod, "ALLOWED_AXIOMS", []))]
+            if extra:
+                out.oblige("coqchk:axioms allowed", "hygiene", False, ", ".join(extra))
         # 4. correspondence + search, property specific
         try:
             mod.run(out, tier, scratch)
@@ -78,7 +86,15 @@ def main() -> int:
         ap.error("property id required")
     if a.replay:
         mod = importlib.import_module(f"props.{a.prop.lower()}")
-        return mod.replay(json.load(open(a.replay)))
+        rp = json.load(open(a.replay))
+        if "broken_obligations" in rp and "predicate" not in rp:
+            # no-failing-input-found replay: names the theorem / correspondence that no longer checks
+            print(f"replay {a.prop}: no concrete failing input was recorded; obligations that did not check:")
+            for o in rp["broken_obligations"]:
+                print(f"  - {o.get('kind')} {o.get('name')}: {str(o.get('detail'))[-400:]}")
+            print("re-run the check itself to see whether they check now")
+            return 1
+        return mod.replay(rp)
     return run_check(a.prop.upper(), a.tier)
 
 
